@@ -6,10 +6,12 @@ import (
 	"fmt"
 	"image"
 	"log"
+	"math/rand"
 	"net"
 	"os"
 	"strings"
 	"sync"
+	"sync/atomic"
 	"time"
 
 	"github.com/brutella/hc"
@@ -235,4 +237,34 @@ func (t *Transport) WaitEncrypted(local string) bool {
 		time.Sleep(500 * time.Microsecond)
 	}
 	return false
+}
+
+var verifyRetries int64
+
+// verifiedConn opens a connection and pair-verifies as id, waiting for the server to promote the session.
+// An honest pair-verify can fail for a schedule-dependent reason on the unrepaired tree (DESIGN.md D14: the V4 answer is
+// occasionally sent in ciphertext); that is C04's business, every other family simply tries again and counts it.
+func (t *Transport) verifiedConn(id ref.Identity, ltpk []byte, rng *rand.Rand) (*ref.Conn, error) {
+	var last error
+	for try := 0; try < 6; try++ {
+		c, err := ref.Dial(t.Addr)
+		if err != nil {
+			return nil, err
+		}
+		vc := &ref.VerifyClient{ID: id, Rnd: rndFunc(rng)}
+		if err := vc.Run(c, ltpk); err != nil {
+			c.Close()
+			last = err
+			atomic.AddInt64(&verifyRetries, 1)
+			continue
+		}
+		if !t.WaitEncrypted(c.C.LocalAddr().String()) {
+			c.Close()
+			last = fmt.Errorf("session not promoted")
+			atomic.AddInt64(&verifyRetries, 1)
+			continue
+		}
+		return c, nil
+	}
+	return nil, fmt.Errorf("honest pair-verify failed repeatedly: %v", last)
 }
